@@ -80,6 +80,23 @@ def decide(prop, tier, seed=0, use_cache=True, out=sys.stdout):
         # `verus_support`: units proved for ANOTHER property whose contracts this property's argument composes (e.g. the text parser
         # for every function that accepts JSON text): they are run as well and EVERY failure in them counts, whatever its tags
         support = [u for u in pp.get("verus_support", []) if u not in pp.get("verus", [])]
+        # closure: a unit that imports another one with `#! use` (assume/guarantee stubs generated from that unit's contracts) or that
+        # restates its contracts by hand (`unit_deps` in plan.json, from the `[proved in unit X]` comments) depends on it
+        def _deps(u):
+            out = list(plan.get("unit_deps", {}).get(u, []))
+            try:
+                for ln in open(os.path.join(ROOT, "verus", "units", u + ".vu")):
+                    m = re.match(r"#! use (\S+)", ln)
+                    if m:
+                        out.append(m.group(1))
+            except OSError:
+                pass
+            return out
+        todo = list(pp.get("verus", [])) + support
+        while todo:
+            for v in _deps(todo.pop()):
+                if v not in pp.get("verus", []) and v not in support:
+                    support.append(v); todo.append(v)
         for unit in pp.get("verus", []) + support:
             futs[(unit, False)] = pool.submit(verus_run.run_unit, unit, use_cache=use_cache, log_air=True)
             futs[(unit, True)] = pool.submit(verus_run.run_unit, unit, canary=True, use_cache=use_cache)
